@@ -457,6 +457,67 @@ func c10Run(c *Ctx) {
 		}
 		c.Do("prop", c10Prop{Raw: strings.Join(parts, ".")})
 	}
+	// --- evaluation never panics, whatever the tokens: pointers whose tokens end in index groups `[n]` (outside the
+	// domain of the node comparison, D26 - dom.Child reads them as list access - but inside "never panics"): the group
+	// is put behind the token of an existing location (often a list member), n ranges over in-range indices, numerals
+	// with leading zeros, and numerals far beyond every list up to and beyond the fixed-width integer limits
+	gi := c10EvalGen()
+	for i := 0; i < c.N(300); i++ {
+		c.Tick()
+		doc := gi.Doc(r)
+		for j := 0; j < 4; j++ {
+			c.Do("eval", c10Eval{Doc: doc, P: c10GenGroupPointer(r, gi, doc)})
+		}
+	}
+}
+
+// c10GenGroupPointer: a pointer to an existing location (or a near miss) with index groups appended to one token.
+func c10GenGroupPointer(r *rand.Rand, g *DocGen, doc W) []string {
+	var locs [][]string
+	c10Locations(doc, nil, &locs)
+	var lists [][]string
+	for _, p := range locs {
+		if _, n, ok := c10RefWalk(doc, p); ok {
+			if _, isList := n.([]any); isList {
+				lists = append(lists, p)
+			}
+		}
+	}
+	var p []string
+	switch {
+	case len(lists) > 0 && r.Intn(4) != 0:
+		p = append([]string{}, pick(r, lists)...)
+	case len(locs) > 0 && r.Intn(4) != 0:
+		p = append([]string{}, pick(r, locs)...)
+	default:
+		p = []string{pick(r, g.Keys)}
+	}
+	group := func() string {
+		switch r.Intn(6) {
+		case 0, 1:
+			return fmt.Sprintf("[%d]", r.Intn(5))
+		case 2:
+			return "[" + strings.Repeat("0", 1+r.Intn(3)) + fmt.Sprint(r.Intn(12)) + "]"
+		case 3:
+			return "[" + pick(r, []string{"5", "8", "17", "100", "4294967296", "9223372036854775807"}) + "]"
+		default:
+			return "[" + pick(r, c10WrapNumerals) + "]"
+		}
+	}
+	i := len(p) - 1
+	if r.Intn(5) == 0 {
+		i = r.Intn(len(p))
+	}
+	for {
+		p[i] += group()
+		if r.Intn(3) != 0 {
+			break
+		}
+	}
+	if r.Intn(3) == 0 {
+		p = append(p, pick(r, append([]string{"0", "1"}, g.Keys...)))
+	}
+	return p
 }
 
 // ---------------------------------------------------------------- evaluation of a case
@@ -614,8 +675,24 @@ func c10Eval_(c *Ctx, kind string, raw []byte) {
 			}
 		}
 		if !inDomain {
-			// outside the property's domain (e.g. a shrink candidate): nothing is compared
+			// outside the domain of the node comparison (a token ending in an index group, or a shrink candidate): the
+			// addressed node is not compared, but "never panics" has no domain restriction - through every entry point
 			c.Dist("eval:out-of-domain")
+			out, txt := guard(func() {
+				d := wireContainer(k.Doc)
+				_, n := c10PathOf(k.P).Eval(d)
+				_, n2 := c10PathOf(k.P).Eval(d.Seal())
+				if n != nil || n2 != nil {
+					c.Dist("eval:out-of-domain:resolves")
+				}
+				if pp, perr := patch.ParsePath(c10PathOf(k.P).String()); perr == nil {
+					pp.Eval(d)
+				}
+			})
+			c.Direct("eval-no-panic(any tokens)", out == "ok", txt)
+			if len(k.P) >= 2 {
+				c.Nontrivial()
+			}
 			return
 		}
 		var trail []any
